@@ -244,7 +244,16 @@ class Session:
         self.requests = [r for r in self.Loop.log if r['netloc'] == self.P_NETLOC and r['body']]
         self.notifications = [r for r in self.Loop.log if r['netloc'] == self.C_NETLOC and r['body']]
         self.gets = [r for r in self.Loop.log if r['body'] is None]
-        # from here on nothing may change provider state behind our back
+        # from here on nothing may change provider state behind our back: renew far into the future, stop the consumer's
+        # renew thread and the periodic self-check worker of the example alarm provider (commits a transaction every few seconds)
+        self.stopped_workers = 0
+        for product in self.dev.product_lookup.values():
+            for obj in _walk(product):
+                d = getattr(obj, '__dict__', {})
+                if '_stop_worker' in d and d.get('_worker_thread') is not None:
+                    obj._stop_worker.set()
+                    obj._worker_thread.join(5)
+                    self.stopped_workers += 1
         for s in self.cons._subscription_mgr.subscriptions.values():
             s.renew(7000)
         self.cons._subscription_mgr.stop()
@@ -300,6 +309,9 @@ class Session:
             except Exception:  # noqa: BLE001
                 pass
         time.sleep(0.2)
+        subs = list(cons._subscription_mgr.subscriptions.values())
+        if len(subs) > 1:
+            attempt(subs[-1].unsubscribe)   # records an Unsubscribe request; the other subscription keeps the reports coming
 
     # ---- state
     def fingerprint(self):
@@ -360,6 +372,28 @@ class Session:
                 f()
             except Exception:  # noqa: BLE001
                 pass
+
+
+def _walk(root, depth=3):
+    seen, todo = set(), [(root, 0)]
+    while todo:
+        o, d = todo.pop()
+        if id(o) in seen:
+            continue
+        seen.add(id(o))
+        yield o
+        if d >= depth:
+            continue
+        vals = []
+        if hasattr(o, '__dict__'):
+            vals = list(vars(o).values())
+        elif isinstance(o, (list, tuple)):
+            vals = list(o)
+        elif isinstance(o, dict):
+            vals = list(o.values())
+        for v in vals:
+            if type(v).__module__.startswith(('tutorial', 'sdc11073')) or isinstance(v, (list, tuple, dict)):
+                todo.append((v, d + 1))
 
 
 _SESSION = None
@@ -980,7 +1014,7 @@ def mutation_stream(ctx, sess):
         m = re.search(rb'Action[^>]*>([^<]*)<', r['body'])
         by_type.setdefault((m.group(1) if m else b'?', r['path'].split('/')[-1]), r)
     types_ = list(by_type.values())
-    n = ctx.n(1400, 16000)
+    n = ctx.n(1100, 14000)
     sample_every = 10 if ctx.tier == 'quick' else 6
     for i in range(n):
         rec = types_[i % len(types_)] if i < 4 * len(types_) else rng.choice(pool)
@@ -991,7 +1025,7 @@ def mutation_stream(ctx, sess):
     # consumer endpoint: notifications the provider really sent, mutated
     pooln = sess.notifications
     if pooln:
-        for i in range(ctx.n(500, 6000)):
+        for i in range(ctx.n(400, 5000)):
             rec = rng.choice(pooln)
             kind, path, body, ent = mutate_request(rng, sess, rec, pooln)
             post_real(ctx, sess, sess.c_mw, 'consumer', kind, path, body, ent)
@@ -1031,7 +1065,7 @@ def http_stream(ctx, sess, L):
     server = types.SimpleNamespace(dispatcher=sess.psrv.dispatcher, supported_encodings=list(L.CH.available_encodings), chunk_size=0,
                                    logger=mock.MagicMock())
     pool = sess.requests
-    for i in range(ctx.n(500, 6000)):
+    for i in range(ctx.n(400, 5000)):
         rec = rng.choice(pool)
         body, path = rec['body'], rec['path']
         k = rng.randrange(14)
@@ -1173,6 +1207,7 @@ def run(ctx):
     injection_handler(ctx, L, B, classes)
     B.flush()
     sess = session()
+    ctx.notes['background_workers_stopped'] = sess.stopped_workers
     try:
         mutation_stream(ctx, sess)
         http_stream(ctx, sess, L)
